@@ -103,8 +103,17 @@ def observe_login(enc, sid, key_form, seed):
     w = Wire()
     conn = Connection('h', 25565, auth_token=Tok(), allowed_versions={757})
     conn.socket, conn.file_object = w, w
+    # the request as it comes off the wire: the peer's own encoding of (server id, key, token), decoded by the library
+    from minecraft.networking.packets import PacketBuffer
+    pb = PacketBuffer()
+    pb.send(P.S(sid) + P.BA(der) + P.BA(b'tokn'))
+    pb.reset_cursor()
     pkt = clientbound.login.EncryptionRequestPacket(context=conn.context)
-    pkt.server_id, pkt.public_key, pkt.verify_token = sid, der, b'tokn'
+    try:
+        pkt.read(pb)
+    except Exception as e:      # noqa
+        return {'sid': [ord(c) for c in sid], 'secret': [], 'key': list(der), 'updates': [],
+                'result': [ord(c) for c in 'decoding the request raised %r' % (e,)], 'via': 'login:' + key_form}, None
     old = getattr(enc, 'sha1', None)
     if old is not None:
         enc.sha1 = Recorder
@@ -179,10 +188,10 @@ def run(chk):
         chk.case(('rand', j))
         obs.append(o)
     # the same through the login reactor: what reaches AuthenticationToken.join, for every key encoding the client accepts
-    for j in range(9 if quick else 60):
-        sid = ['', 'abc123', 'caf\u00e9-\u30b5\u30fc\u30d0\u30fc'][j % 3] if j < 9 else ''.join(
+    for j in range(18 if quick else 72):
+        sid = ['', 'abc123', 'caf\u00e9-\u30b5\u30fc\u30d0\u30fc', '\ufeffsrv-1', '\ufeff', 'a\ufeffb\n'][j % 6] if j < 18 else ''.join(
             chr(rng.choice([rng.randint(33, 126), rng.randint(0xA0, 0x7FF), rng.randint(0x800, 0xD7FF)])) for _ in range(rng.randint(0, 12)))
-        o, res = observe_login(enc, sid, ('spki', 'pkcs1', 'nonull')[(j // 3) % 3], chk.seed * 13 + j)
+        o, res = observe_login(enc, sid, ('spki', 'pkcs1', 'nonull')[(j // 6) % 3], chk.seed * 13 + j)
         chk.case(('login', j))
         obs.append(o)
     tf = os.path.join(chk.work, 'hash_obs.json')
